@@ -143,6 +143,9 @@ def run_case(case):
             lat = LATS[0] + (LATS[1] - LATS[0]) * pos[1] / 2.0
             lon = LONS[0] + (LONS[1] - LONS[0]) * pos[2] / 2.0
             alt = alt_of(pos[0])
+            if 'edge' in c:   # Wind.tla EdgeCases: exactly on the outermost latitude / longitude line of the file
+                lat = {'north': PAD_LATS[-1], 'south': PAD_LATS[0]}.get(c['edge'].split('_')[0], lat)
+                lon = {'east': PAD_LONS[-1], 'west': PAD_LONS[0]}.get(c['edge'].split('_')[-1], lon)
             if c['kind'] == 'outside':
                 side = c['side']
                 lat = {'north': 42.5, 'south': 38.5}.get(side, lat)
@@ -290,7 +293,7 @@ def run(ctx: Ctx):
 
     ctx.rule = (
         'cases (TLC-enumerated): 12 headings (cardinals and 3-4-5 directions) x airspeeds {100,200,250} x uniform winds from {0,+-15,+-20,+-25}^2 (1 764); '
-        '4 spatially varying fields x 5 headings x 2x2 offsets x 27 half-lattice positions (2 160); 6 positions outside the domain; every case with and without a valid_time axis; '
+        '4 spatially varying fields x 5 headings x 2x2 offsets x 27 half-lattice positions (2 160); 6 positions outside the domain, 6 exactly on its outermost latitude / longitude lines; every case with and without a valid_time axis; '
         'all 1 296 histories of 4 queries (3 days, one without time axis, x 2 hours) on one Weather object plus 128 histories with a refused request (day without a file) repeated (WeatherCache.tla); non-trivial = non-cardinal heading with non-zero wind / history with a change of day or hour'
     )
     ctx.assumptions += [
